@@ -1,2 +1,13 @@
-// Package c07: implementation-side ops, generators and oracles for property C07.
+// Package c07: implementation-side ops, generators and oracles for property C07
+// (keys at rest are encrypted, bound to their owner, tamper-evident and confined).
 package c07
+
+import "verifharness/internal/core"
+
+func init() { core.RegisterProp("C07", run) }
+
+func run(r *core.Run) {
+	r.Rule = "path stream: key paths built from a component alphabet (.., ., empty, ordinary, look-alikes such as '..a', '...', reserved names) with / and \\ separators, run through the real directory back end inside a nested sandbox; " +
+		"a case is non-trivial when the path has at least one separator or dot component; distinct by path bytes"
+	runPaths(r)
+}
